@@ -39,7 +39,9 @@ IkeSuites == [prf : PrfIds, integ : IntegIds, encr : EncrBits]
 
 \* SKEYSEED = prf(Ni | Nr, g^ir)            initial exchanges
 \* SKEYSEED = prf(SK_d (old), g^ir (new) | Ni | Nr)     IKE_SA rekey
-Skeyseed(rekey) == IF rekey THEN [fn |-> "prf", key |-> <<"SK_d_old">>, data |-> <<"g^ir", "Ni", "Nr">>]
+\*   "The old and new IKE SA may have selected a different PRF.  Because the rekeying exchange belongs to the old IKE SA, it is the old IKE SA's PRF
+\*    that is used to generate SKEYSEED" (2.18) - everything after it (prf+, the cut) uses the PRF negotiated for the NEW IKE_SA
+Skeyseed(rekey) == IF rekey THEN [fn |-> "prf_old", key |-> <<"SK_d_old">>, data |-> <<"g^ir", "Ni", "Nr">>]
                    ELSE [fn |-> "prf", key |-> <<"Ni", "Nr">>, data |-> <<"g^ir">>]
 
 \* {SK_d | SK_ai | SK_ar | SK_ei | SK_er | SK_pi | SK_pr} = prf+(SKEYSEED, Ni | Nr | SPIi | SPIr)
@@ -78,7 +80,8 @@ IkePlanOk(s, rk) == LET p == IkePlan(s, rk) IN
    /\ p.prfplus.total = 3 * PrfLen[s.prf] + 2 * IntegKey[s.integ] + 2 * (s.encr \div 8)
    /\ p.prfplus.blocks * PrfLen[s.prf] >= p.prfplus.total /\ (p.prfplus.blocks - 1) * PrfLen[s.prf] < p.prfplus.total
    /\ p.prfplus.blocks <= 255
-   /\ rk => (p.skeyseed.key = <<"SK_d_old">> /\ p.skeyseed.data[1] = "g^ir")         \* the OLD SK_d keys the new SKEYSEED
+   /\ rk => (p.skeyseed.key = <<"SK_d_old">> /\ p.skeyseed.data[1] = "g^ir" /\ p.skeyseed.fn = "prf_old")         \* the OLD SK_d keys the new SKEYSEED, under the OLD prf
+   /\ ~rk => p.skeyseed.fn = "prf"
    /\ ~rk => (p.skeyseed.key = <<"Ni", "Nr">> /\ p.skeyseed.data = <<"g^ir">>)
    /\ p.slices[1].name = "sk_d" /\ p.slices[4].name = "sk_ei" /\ p.slices[5].name = "sk_er"   \* initiator direction first
 ChildPlanOk(c, pfs) == LET p == ChildPlan(c, pfs) IN
